@@ -63,7 +63,7 @@ const AXES: [(&str, &str, f64, f64, f64); 4] = [
 ];
 
 /// Directed cases come first in the stream (indices 0..DIRECTED), then seeded random ones.
-pub const DIRECTED: usize = 8;
+pub const DIRECTED: usize = 9;
 
 fn wght() -> AxisSrc {
     AxisSrc { name: "Weight".into(), label: None, tag: "wght".into(), min: 100.0, default: 400.0, max: 900.0 }
@@ -91,8 +91,18 @@ fn directed(i: usize) -> Case {
             runs: 8,
             ..Default::default()
         },
-        // the source supplies a font-specific name id that the allocator hands out as well
+        // the source supplies font-specific name id 256 = "Weight"; the allocator hands 256 out again for "Width"
+        // (clashWitness in FontcProps/C18.lean): one of the two axis names no longer resolves
         2 => Case {
+            adds: vec![(16, s("Fam")), (17, s("Regular")), (256, s("Weight"))],
+            vendor: s("NONE"),
+            axes: vec![wght(), AxisSrc { name: s("Width"), label: None, tag: s("wdth"), min: 50.0, default: 100.0, max: 200.0 }],
+            insts: vec![],
+            runs: 16,
+            ..Default::default()
+        },
+        // same root, other symptom: source id 256 = "Custom" is overwritten by the axis name, or survives and fvar panics
+        8 => Case {
             adds: vec![(16, s("Fam")), (17, s("Regular")), (256, s("Custom"))],
             vendor: s("NONE"),
             axes: vec![wght()],
